@@ -34,17 +34,17 @@ package apierror
 //@   property C19
 //@   ensures len(data) == 0 ==> result == nil
 //@   ensures-local count("call:apierror.New") <= 1
-//@   at call apierror.New#1: assert arg1 == e.Status && arg1 != 0
+//@   at call apierror.New: assert arg1 == e.Status && arg1 != 0
 // non-empty input always decodes to an error, and that error carries exactly the decoded message
 // (also an empty one: the error is not lost and no text is invented for it):
 //@   ensures len(data) != 0 ==> result != nil
 //@   ghost inner := zero("error")
-//@   at call errors.New#1: assert str(arg0) == str(e.Message)
-//@   at call errors.New#1: after ghost inner := result
-//@   at call apierror.New#1: assert arg0 == inner && inner != nil
+//@   at call errors.New: assert str(arg0) == str(e.Message)
+//@   at call errors.New: after ghost inner := result
+//@   at call apierror.New: assert arg0 == inner && inner != nil
 //@   ensures-local count("call:Unmarshal") == 1 && count("call:Errorf") == 0 ==> count("call:errors.New") == 1 && inner != nil && (result == inner || count("call:apierror.New") == 1)
 
 //@ func EncodeError
 //@   property C19
-//@   at call As#1: after assume result ==> apierr != nil
+//@   at call As: after assume result ==> apierr != nil
 //@   ensures err == nil ==> result == nil
